@@ -414,7 +414,46 @@ def s_history(draw):
     return {"kind": kind, "forest": forest, "labels": labels, "ops": ops}
 
 
+@st.composite
+def s_lock_scenario(draw):
+    """competing chains are delivered (so both have been weighed), a prefix is locked below the fork point, and then
+    the remaining headers arrive one batch at a time: the choice between the old tips and the new ones must still be
+    by weight above the anchor"""
+    main_len = draw(st.integers(3, 8))
+    forest = [[i, draw(st.integers(1, 4))] for i in range(0, main_len)]          # node i+1 extends node i (0 = anchor)
+    nforks = draw(st.integers(1, 3))
+    fork_nodes = []
+    for _ in range(nforks):
+        at = draw(st.integers(1, main_len - 1))                                  # fork off main-chain node `at`
+        flen = draw(st.integers(1, 3))
+        parent = at
+        for _j in range(flen):
+            forest.append([parent, draw(st.integers(1, 4))])
+            parent = len(forest)
+            fork_nodes.append(parent)
+    n = len(forest)
+    kind = draw(st.sampled_from(["int", "bytes"]))
+    labels = draw(st.lists(st.integers(1, 40) if kind == "int" else st.integers(1, 10 ** 6), min_size=n, max_size=n, unique=True))
+    held_main = draw(st.integers(1, min(3, main_len - 2)))                       # main-chain tail delivered after the lock
+    held_fork = draw(st.lists(st.sampled_from(fork_nodes), max_size=2, unique=True))
+    first = [i for i in range(1, n + 1) if i <= main_len - held_main or (i > main_len and i not in held_fork)]
+    first = draw(st.permutations(first))
+    ops = [["d", list(first)]] if draw(st.booleans()) else [["d", [x]] for x in first]
+    ops.append(["l", draw(st.integers(1, main_len - held_main))])
+    later = [i for i in range(1, n + 1) if i not in first]
+    later = draw(st.permutations(later))
+    for x in later:
+        ops.append(["d", [x]])
+    if draw(st.booleans()):
+        ops.append(["dall"])
+    return {"kind": kind, "forest": forest, "labels": labels, "ops": ops}
+
+
 SUBCHECKS = [
+    SubCheck("lock_then_extend", o_history, strategy=s_lock_scenario, budget=(3000, 100000), nontrivial=nt_history,
+             rule="a main chain of 3-8 headers with 1-3 forks (weights 1-4): everything but the last 1-3 main-chain headers (and "
+                  "up to 2 fork headers) is delivered, a prefix is locked, then the held-back headers arrive one per batch; same "
+                  "invariants after every delivery; non-trivial = orphan later connected or reorg"),
     SubCheck("exhaustive_small_forests", o_history, cases=cases_exhaustive, exhaustive=True, nontrivial=nt_history,
              rule="every acyclic parent function on N<=3 (thorough: 4) headers (parents: anchor, unknown, other node) x weights "
                   "{1,2,3}^N (N=4: {1,2}^4) x every delivery permutation x every partition into consecutive batches x hashes as "
